@@ -38,6 +38,16 @@ pub fn verif_instant_sub(a: Instant, b: Instant) -> (r: Duration)
     ensures dur_nanos(r) == iv(a) - iv(b),
 { a - b }
 
+/// Instant::checked_add is `Some(a + d)` exactly when the sum is representable
+pub assume_specification[ Instant::checked_add ](a: &Instant, d: Duration) -> (r: Option<Instant>)
+    ensures add_ok(*a, d) ==> (r matches Some(x) && iv(x) == iv(*a) + dur_nanos(d)), !add_ok(*a, d) ==> r is None;
+/// ASSUMED about the platform clock: a century ahead of any clock reading is representable
+pub broadcast axiom fn axiom_century_ahead()
+    ensures #[trigger] spec_now() + 3_153_600_000int * 1_000_000_000 <= instant_max();
+/// the deadline a TTL starting at the current instant gets: exact when representable, saturated a century ahead otherwise
+pub open spec fn sat_deadline(d: Duration) -> int {
+    if spec_now() + dur_nanos(d) <= instant_max() { spec_now() + dur_nanos(d) } else { spec_now() + 3_153_600_000int * 1_000_000_000 }
+}
 pub assume_specification[ Duration::from_secs ](s: u64) -> (r: Duration)
     ensures dur_nanos(r) == s as int * 1_000_000_000;
 pub assume_specification[ Duration::from_millis ](ms: u64) -> (r: Duration)
@@ -46,7 +56,7 @@ pub broadcast axiom fn axiom_dur_nonneg(d: Duration)
     ensures #[trigger] dur_nanos(d) >= 0;
 pub broadcast axiom fn axiom_instant_ext(a: Instant, b: Instant)
     ensures #![trigger iv(a), iv(b)] iv(a) == iv(b) ==> a == b;
-pub broadcast group group_time { axiom_dur_nonneg, axiom_instant_ext }
+pub broadcast group group_time { axiom_dur_nonneg, axiom_instant_ext, axiom_century_ahead }
 }
 }
 pub use vtime::*;
